@@ -150,6 +150,9 @@ def run(ctx):
     errs = prims.err_blocks(ir_)
     ctx.ob(any(guarded_any(ir_, b, [r'^HashMap::get\(self\.current_aliases, alias@Some\.0\) is None$']) for b in errs), 'an empty topic with an unknown alias is an error', 'inbound|unknown', loc=ir_.loc())
     ctx.ob(any(guarded_any(ir_, b, [r'^\(alias@Some\.0 == 0\)$', r'^\(self\.maximum_alias_value < alias@Some\.0\)$']) for b in errs), 'alias 0 or above the announced maximum is an error', 'inbound|range', loc=ir_.loc())
+    ctx.ob(prims.rets_after(ir_, [r'^!String::is_empty\(topic\)$', r'^\(alias@Some\.0 == 0\)$']) == {'Err'} and prims.rets_after(ir_, [r'^!String::is_empty\(topic\)$', r'^\(self\.maximum_alias_value < alias@Some\.0\)$']) == {'Err'},
+           'completeness: alias 0 / above the maximum always fails', 'inbound|range-complete', loc=ir_.loc())
+    ctx.ob(prims.rets_after(ir_, [r'^String::is_empty\(topic\)$', r'^HashMap::get\(self\.current_aliases, alias@Some\.0\) is None$']) == {'Err'}, 'completeness: an empty topic with an unknown alias always fails', 'inbound|unknown-complete', loc=ir_.loc())
     w = [m for m in prims.mutations(ir_) if m.kind == 'assign' and show(m.path) == 'topic']
     ctx.ob(len(w) == 1 and guarded_any(ir_, w[0].bb, [r'^HashMap::get\(self\.current_aliases, alias@Some\.0\) is Some$']) and 'HashMap::get(self.current_aliases, alias@Some.0))@Some.0' in show(w[0].rv), 'the surfaced topic is the one bound to that alias', 'inbound|resolve', loc=ir_.loc())
     rs = ctx.fn('InboundAliasResolver::reset_for_new_connection')
